@@ -26,6 +26,7 @@ def parseEv (t : String) : Option (Option Ev) :=
   | ["End", _, _] => some none
   | "Fr" :: _ => some none
   | "Fq" :: _ => some none
+  | "Fq0" :: _ => some none
   | ["Wbad"] => some none
   | _ => none
 
